@@ -13,3 +13,8 @@ package text
 
 //@ func (*Caser).Identifierize@drops
 //@   errdrop WriteString: strings.Builder writes never fail
+
+//@ func (*Caser).IdentifierFromFileName
+//@   trusted used at call sites as an unknown-but-deterministic string (file-name handling is not modelled)
+//@   option pure
+//@   assigns nothing
